@@ -207,6 +207,18 @@ func RunScript(sc Script, workRoot string) (*vtrace.Tracer, bool) {
 					return
 				}
 			}
+			// a consumer that is not reading its input at the stop (a forwarder waiting to re-dial a refusing upstream): it takes
+			// nothing more, learns of the stop from the InputClosed signal only, hands back what it holds and finishes
+			if gs.Policy == "stalled" {
+				if !args.InputClosed.Wait(5 * time.Second) {
+					tr.Emit("HUNG", "what", "no InputClosed signal")
+					return
+				}
+				tr.Emit("ConsSawClosed")
+				closed = true
+				finish()
+				return
+			}
 			// after the scripted part: keep consuming by policy until the channel is closed, then resolve and finish
 			for !closed {
 				take(4 * time.Millisecond)
